@@ -19,6 +19,7 @@ import (
 	"io"
 	"math/rand"
 	"os"
+	"runtime/pprof"
 	"sort"
 	"strings"
 	"sync"
@@ -73,6 +74,7 @@ type csEdge struct {
 	Dst  csState `json:"dst"`
 
 	src, dst string
+	si, di   int // state numbers (indices into csGraph.out)
 	covered  bool
 	ran      bool
 	tries    int
@@ -243,6 +245,7 @@ type csConn struct {
 	hist   []*csEdge
 	cliEnd *pipe.End
 	wrote  bool // the message was written to the current writer
+	sub    time.Duration
 }
 
 func newCsConn(lmtp bool, subTimeout time.Duration) *csConn {
@@ -257,7 +260,7 @@ func newCsConn(lmtp bool, subTimeout time.Duration) *csConn {
 	}
 	cl.CommandTimeout = 5 * time.Second
 	cl.SubmissionTimeout = subTimeout
-	return &csConn{lmtp: lmtp, cl: cl, fake: f, cliEnd: c}
+	return &csConn{lmtp: lmtp, cl: cl, fake: f, cliEnd: c, sub: subTimeout}
 }
 
 func (c *csConn) discard() {
@@ -289,6 +292,11 @@ func (c *csConn) call(l *csLabel) (string, bool) {
 		c.cl.CommandTimeout = 600 * time.Millisecond
 	} else {
 		c.cl.CommandTimeout = 5 * time.Second
+	}
+	if len(l.V) == 1 && l.V[0] == "stall" && c.sub <= time.Second {
+		c.cl.SubmissionTimeout = 500 * time.Millisecond // the reply will not come: no need to wait long for it
+	} else {
+		c.cl.SubmissionTimeout = c.sub
 	}
 	go func() {
 		switch l.Call {
@@ -518,8 +526,9 @@ func (c *csConn) step(e *csEdge) (what, field string) {
 type csGraph struct {
 	lmtp  bool
 	edges []*csEdge
-	out   map[string][]*csEdge
-	init  string
+	ids   map[string]int // state key -> state number
+	out   [][]*csEdge    // by state number
+	init  int
 }
 
 func loadCsGraph(flavour string) *csGraph {
@@ -527,21 +536,34 @@ func loadCsGraph(flavour string) *csGraph {
 	if err != nil || res == nil || !res.OK {
 		evid.Inconclusive("TLC edge dump of ClientSession (%s): %v", flavour, err)
 	}
-	g := &csGraph{lmtp: flavour == "lmtp", out: map[string][]*csEdge{}}
+	g := &csGraph{lmtp: flavour == "lmtp", ids: map[string]int{}}
+	id := func(k string) int {
+		if i, ok := g.ids[k]; ok {
+			return i
+		}
+		g.ids[k] = len(g.out)
+		g.out = append(g.out, nil)
+		return len(g.out) - 1
+	}
 	for _, p := range res.Tagged["CEDGE"] {
 		e := &csEdge{}
 		if err := json.Unmarshal([]byte(p), e); err != nil {
 			evid.Inconclusive("CEDGE: %v", err)
 		}
 		e.src, e.dst = e.Src.key(), e.Dst.key()
+		e.si, e.di = id(e.src), id(e.dst)
 		g.edges = append(g.edges, e)
-		g.out[e.src] = append(g.out[e.src], e)
+		g.out[e.si] = append(g.out[e.si], e)
 	}
 	if len(g.edges) == 0 {
 		evid.Inconclusive("ClientSession edge dump is empty")
 	}
 	init := csState{Conn: "open", G: "new", H: "no", Ext: []string{"<nil>"}, Name: "localhost", Rcpts: []string{}, Dw: "none", SList: []string{}, SExt: []string{}}
-	g.init = init.key()
+	ii, ok := g.ids[init.key()]
+	if !ok {
+		evid.Inconclusive("ClientSession edge dump has no initial state")
+	}
+	g.init = ii
 	if len(g.out[g.init]) == 0 {
 		evid.Inconclusive("ClientSession edge dump has no initial state")
 	}
@@ -550,13 +572,14 @@ func loadCsGraph(flavour string) *csGraph {
 
 // path returns the shortest edge sequence from state `from` that ends with an
 // uncovered edge wanted by the worker.
-func (g *csGraph) path(from string, mu *sync.Mutex, want func(*csEdge) bool) []*csEdge {
+func (g *csGraph) path(from int, mu *sync.Mutex, want func(*csEdge) bool) []*csEdge {
 	type node struct {
-		st   string
+		st   int
 		prev *node
 		via  *csEdge
 	}
-	seen := map[string]bool{from: true}
+	seen := make([]bool, len(g.out))
+	seen[from] = true
 	q := []*node{{st: from}}
 	mu.Lock()
 	defer mu.Unlock()
@@ -573,9 +596,9 @@ func (g *csGraph) path(from string, mu *sync.Mutex, want func(*csEdge) bool) []*
 			}
 		}
 		for _, e := range g.out[n.st] {
-			if !seen[e.dst] {
-				seen[e.dst] = true
-				q = append(q, &node{st: e.dst, prev: n, via: e})
+			if !seen[e.di] {
+				seen[e.di] = true
+				q = append(q, &node{st: e.di, prev: n, via: e})
 			}
 		}
 	}
@@ -657,7 +680,7 @@ func csTour(run *evid.Run, g *csGraph, workers int, sample func(*csEdge) bool) c
 			cur := g.init
 			for {
 				mu.Lock()
-				tooMany := st.divs > 40
+				tooMany := st.divs > 40 || (os.Getenv("VERIF_CS_LIMIT") != "" && st.steps > 8000) // (the limit: profiling aid)
 				mu.Unlock()
 				if tooMany {
 					break
@@ -692,7 +715,7 @@ func csTour(run *evid.Run, g *csGraph, workers int, sample func(*csEdge) bool) c
 					e.covered, e.ran = true, true
 					mu.Unlock()
 					if field == "" {
-						cur = e.dst
+						cur = e.di
 						continue
 					}
 					hist := append([]*csEdge{}, c.hist...)
@@ -977,6 +1000,12 @@ func csWalk(lmtp bool, rng *rand.Rand, steps int, script []*csLabel, sub time.Du
 
 func clientSessionEngine(run *evid.Run, tier string) map[string]interface{} {
 	cov := map[string]interface{}{}
+	if pf := os.Getenv("VERIF_CS_CPUPROFILE"); pf != "" {
+		if f, err := os.Create(pf); err == nil {
+			pprof.StartCPUProfile(f)
+			defer pprof.StopCPUProfile()
+		}
+	}
 	var states, trans int64
 	for _, f := range []string{"smtp", "lmtp"} {
 		mc := modelCheck("MC_ClientSession", "MC_ClientSession_"+f+".cfg", 8)
@@ -1005,10 +1034,13 @@ func clientSessionEngine(run *evid.Run, tier string) map[string]interface{} {
 				}
 				rot := func(k int64) bool { return (int64(n)+seed)%k == 0 }
 				if len(e.Lbl.V) == 1 && e.Lbl.V[0] == "stall" {
+					if e.Lbl.Call == "SendMail" {
+						return rot(30) // (there are thousands of them, one real time-out each)
+					}
 					return rot(3) // a third of the time-out edges in the quick tier
 				}
 				if e.Lbl.Dec.C == "stall" {
-					return rot(12) // commands that are never answered (CommandTimeout)
+					return rot(24) // commands that are never answered (CommandTimeout)
 				}
 				// quick tier: the calls that carry this property's clauses are toured
 				// completely, the others are sampled (and still executed on the way)
